@@ -83,6 +83,29 @@ FRAMES += [
     "import math as {v}\n\n\ndef {w}(a):\n    return a + 1\n\n\ndef {u}(a):\n    return a + 1\n\n\ndef use(x):\n    from os import sep as {w}\n    return {u}(len({w})) + x\n\n\nprint(use(3), {w}(1), {v}.floor(1.5))\n",
 ]
 
+FRAMES += [
+    # functions that are equal up to the outer names they use are not duplicates
+    "def {v}(x):\n    return x + 1\n\n\ndef {w}(x):\n    return x * 10\n\n\ndef first(x):\n    return {v}(x)\n\n\ndef second(x):\n    return {w}(x)\n\n\nprint(first(1), second(1))\n",
+    "{v} = 3\n{w} = 5\n\n\ndef first(x):\n    return x * {v}\n\n\ndef second(x):\n    return x * {w}\n\n\nprint(first(1), second(1))\n",
+    "{v} = {w} = 0\n\n\ndef first():\n    global {v}\n    {v} = 1\n\n\ndef second():\n    global {w}\n    {w} = 2\n\n\nfirst()\nsecond()\nprint({v}, {w})\n",
+    # a name that is assigned and deleted
+    "def make():\n    return [1]\n\n\ndef f():\n    {v} = make()\n    del {v}\n    return 2\n\n\nprint(f())\n",
+    "import sys\n{v} = len(sys.argv)\ndel {v}\n{w} = 1\nprint({w})\n",
+    # a function that is defined again in a nested block of the same scope
+    "import sys\n\n\ndef {v}(x):\n    return 1\n\n\nif len(sys.argv) >= 0:\n    def {v}(x):\n        return x + 2\n\n\nprint({v}(3))\n",
+    "import sys\n\n\nclass {v}:\n    val = 1\n\n\nfor _i in [0]:\n    class {v}:\n        val = 2\n\n\nprint({v}.val)\n",
+    # a name in a class body that refers to a method, and class members named in match patterns
+    "class Base:\n    pass\n\n\nclass A(Base):\n    def {v}(self):\n        return 7\n\n    {w} = {v}\n\n\nprint(A().{w}(), A().{v}())\n",
+    "class A:\n    def {v}(self):\n        return 7\n\n    {w} = {v}\n\n\nprint(A().{w}())\n",
+    "import dataclasses\n\n\n@dataclasses.dataclass\nclass Point:\n    {v}: int\n    {w}: int\n\n\ndef f(p):\n    match p:\n        case Point({v}=0, {w}=y):\n            return y\n    return -1\n\n\nprint(f(Point(0, 5)))\n",
+    # static methods that move to module level: the new name and the place they are put
+    "_{v} = 5\n\n\nclass K:\n    @staticmethod\n    def {v}(x):\n        return x + _{v}\n\n\nprint(K.{v}(1), _{v})\n",
+    "class K:\n    @staticmethod\n    def {v}(x):\n        return x + 1\n\n\ndef f(x):\n    y = K.{v}(x)\n    return y * 2\n\n\nprint(f(1))\n",
+    "def deco(c):\n    c.tag = getattr(c, 'tag', 0) + 1\n    return c\n\n\n@deco\n@deco\nclass K:\n    @staticmethod\n    def {v}(x):\n        return x + 1\n\n\nprint(K.{v}(1), K.tag)\n",
+    "TEXT = \"\"\"\nabc\n\"\"\"\nclass K:\n    @staticmethod\n    def {v}(x):\n        return x + 1\n\n\nprint(K.{v}(1), TEXT)\n",
+    "import math as _{v}\n\n\nclass K:\n    def {v}(self, x):\n        return x + 1\n\n\nprint(K().{v}(1), _{v}.floor(2.5))\n",
+]
+
 RULES = ["fixes.align_variable_names_with_convention", "fixes.undefine_unused_variables", "fixes.remove_duplicate_functions", "object_oriented.move_staticmethod_static_scope", "format_code"]
 
 
